@@ -294,3 +294,37 @@ fn c05_function_params_progress() {
         Err(e) => assert!(matches!(e, ParseError::SyntaxError(_))),
     }
 }
+
+/// O05.2b  the same contract over the five token CLASSES the loop can tell apart (identifier, `,`, `)`, any other
+/// token, end of input), first token concrete per harness - small enough that a loop which stops consuming input is
+/// reported as an unwinding failure (= violation of termination) instead of exhausting the solver (seeded change C05-3)
+macro_rules! params_progress { ($name:ident, $ka:expr) => {
+    #[kani::proof]
+    #[kani::unwind(6)]
+    #[kani::stub(std::fmt::format, fmt_stub)]
+    #[kani::stub(Parser::advance, advance_queue)]
+    #[kani::stub(Parser::parse_block_statement, block_rec)]
+    fn $name() { params_progress_contract($ka); }
+} }
+params_progress!(c05_params_progress_ident, 0);
+params_progress!(c05_params_progress_comma, 1);
+params_progress!(c05_params_progress_close, 2);
+params_progress!(c05_params_progress_other, 3);
+params_progress!(c05_params_progress_eof, 4);
+fn params_progress_contract(ka: usize) {
+    const CLS: [u8; 5] = [0, 22, 25, 1, 39];
+    let kb: usize = kani::any();
+    kani::assume(kb < 5);
+    kani::cover!(kb == 3);
+    unsafe { QUEUE = [24, CLS[ka], CLS[kb], 25, 25, 39]; QPOS = 0; ADVANCES = 0; OTHER_CALLS = 0; }
+    let mut p = parser_at(Token::Func);
+    let r = ManuallyDrop::new(p.parse_function_expr());
+    match &*r {
+        Ok(Expr::Function { parameters, .. }) => {
+            assert!(parameters.len() <= 2 && unsafe { OTHER_CALLS } == 1);
+            assert!(unsafe { ADVANCES } as usize >= 3 + parameters.len());
+        }
+        Ok(_) => assert!(false),
+        Err(e) => assert!(matches!(e, ParseError::SyntaxError(_))),
+    }
+}
